@@ -70,7 +70,12 @@ def find_legacy_decider(proj: Project) -> Decider:
     # unpacked into.  If the loop does not unpack its rule into names any more (a record type, index access …) none of them can bind.
     unpacked = set()
     for st in ast.walk(d.loop):
-        if isinstance(st, ast.Assign) and isinstance(st.value, ast.Name) and st.value.id == d.rule_var:
+        if not isinstance(st, ast.Assign):
+            continue
+        v = st.value
+        # `a, b, c = rule`, `a, b = rule[:2]`, `c = rule[4] if len(rule) > 4 else None`
+        parts = [v.body, v.orelse] if isinstance(v, ast.IfExp) else [v]
+        if any(isinstance(x, ast.Name) and x.id == d.rule_var or (isinstance(x, ast.Subscript) and isinstance(x.value, ast.Name) and x.value.id == d.rule_var) for x in parts):
             for t in st.targets:
                 unpacked |= set(target_names(t))
     if not ({'pattern', 'category'} <= unpacked):
